@@ -165,7 +165,9 @@ static carquet_status_t decode_levels_rle(
     int64_t decoded = carquet_rle_decode_levels(
         data, data_size, bit_width, levels, num_values);
 
-    if (decoded < 0) {
+    /* Fewer levels than the page has values would leave the rest of the (malloc'ed,
+     * reused) level buffer as it was */
+    if (decoded != num_values) {
         return CARQUET_ERROR_DECODE;
     }
 
@@ -433,7 +435,8 @@ carquet_status_t carquet_read_data_page_v1(
                 int64_t decoded = carquet_rle_decode_all(
                     ptr, remaining, bit_width, indices, non_null_count);
 
-                if (decoded < 0) {
+                /* fewer indices than values would leave stale indices in the reused buffer */
+                if (decoded != non_null_count) {
                     CARQUET_SET_ERROR(error, CARQUET_ERROR_DECODE, "Failed to decode dictionary indices");
                     return CARQUET_ERROR_DECODE;
                 }
@@ -524,6 +527,10 @@ carquet_status_t carquet_read_data_page_v1(
                             }
                             break;
                         default:
+                            /* no dictionary form for this type: nothing would be stored */
+                            if (non_null_count > 0) {
+                                status = CARQUET_ERROR_DECODE;
+                            }
                             break;
                     }
                 }
